@@ -17,7 +17,7 @@ func init() {
 	register(&Property{
 		ID:        "C39",
 		Title:     "Overlapping IP pools resolve to one allocatable pool per address",
-		Technique: "static analysis: provenance of the Allocatable=True set, cut-set guards with map-membership blocking, comparator shape and category table, finalizer-removal guards (go/ssa over kube-controllers/pkg/controllers/ippool)",
+		Technique: "static analysis: provenance of the Allocatable=True set, cut-set guards with map-membership blocking, comparator shape and category table, finalizer-removal guards, error-branch independence of the finalizer pass, sibling agreement of the trie descent bit (go/ssa over kube-controllers/pkg/controllers/ippool and felix/ip)",
 		DesignRef: "DESIGN.md §3 C39",
 		Explanation: "Decides on the pool controller: (single) Allocatable=True is written only for pools ranged from one map; a pool is stored into that map only where, for the trie of its family and the CIDR parsed " +
 			"from its own Spec.CIDR, Intersects and Covers both returned false, it is not Spec.Disabled and has no DeletionTimestamp, and the same step inserts it into that trie; (keep) the pools are sorted " +
@@ -25,8 +25,10 @@ func init() {
 			"end in a name comparison (total order); (mask) a terminating, not disabled pool is inserted into the trie; (finalizer) every persisted removal of the pool finalizer below reconcile (recognised by what it does: Finalizers with the finalizer constant filtered out, stored into an object handed to a clientset write, directly or through helpers) is guarded by blocksInPool()==false for the " +
 			"pool's own CIDR or by the pool being Allocatable=False and not deleting — facts established in the hosting function or lifted to every call site leading to it; a live pool gets the finalizer appended; blocksInPool returns true where a block's address is contained; (indep) no branch on the error of a call that performs a clientset " +
 			"write decides, within one iteration of the overlap loop, whether trie.Update is reached while the pass continues to further writes; (synced) every informer-typed field of IPPoolController read in the closure of " +
-			"reconcile has its HasSynced among the arguments of a cache.WaitFor(Named)CacheSync call whose true result guards every statement of Run that starts something reaching reconcile.",
-		NotDecided: "Correctness of felix/ip.CIDRTrie (Covers/Intersects semantics), informer cache staleness after the initial sync, that kube-controllers actually starts both informers, API write failures between the condition pass and the finalizer pass, and IPAM's own use of the condition.",
+			"reconcile has its HasSynced among the arguments of a cache.WaitFor(Named)CacheSync call whose true result guards every statement of Run that starts something reaching reconcile; " +
+			"(finpass) in reconcile no branch on the error of an earlier API-writing call (the conditions pass) decides whether the finalizer pass is reached: pools that the pass has just written Allocatable=True get their finalizer even when another pool's status write failed; " +
+			"(overlap-bit) the felix/ip.CIDRTrie routines the controller's overlap test calls (Get/Intersects/Covers/Update) all select a node's child by the address bit at position len(node prefix)+1 (C36.position armed for their call closure).",
+		NotDecided: "Correctness of felix/ip.CIDRTrie beyond the agreed descent bit (Covers/Intersects containment arithmetic; see C36), informer cache staleness after the initial sync, that kube-controllers actually starts both informers, API write failures inside the finalizer pass itself (a failed finalizer write is retried by the requeue), and IPAM's own use of the condition.",
 		Assumptions: []string{
 			"go/types + go/ssa (x/tools v0.50.0) model of the current source, CGO_ENABLED=0 build",
 			"CIDRTrie.Covers(c) / Intersects(c) report an entry containing / contained in c (equal CIDRs satisfy both)",
@@ -67,6 +69,16 @@ func init() {
 				Old: "\tif c.blocksInPool(*parsedNet) {\n\t\tlogCtx.Info(\"IPAM blocks still exist in pool, not removing finalizer\")\n\t\treturn nil\n\t}\n", New: "", Expect: "C39.finalizer/remove"},
 			{Name: "finalizer removed from any live pool", File: "kube-controllers/pkg/controllers/ippool/pool_controller.go",
 				Old: "\t\tif hasCondition(p, v3.IPPoolConditionAllocatable, metav1.ConditionFalse) {\n\t\t\t// If this pool is disabled", New: "\t\tif !hasCondition(p, v3.IPPoolConditionAllocatable, metav1.ConditionFalse) {\n\t\t\t// If this pool is disabled", Expect: "C39.finalizer/remove"},
+			{Name: "conditions-pass error returned before the finalizer pass", File: "kube-controllers/pkg/controllers/ippool/pool_controller.go",
+				Old: "\tif err != nil {\n\t\terrs = append(errs, err)\n\t}\n\n\tfor _, p := range pools {", New: "\tif err != nil {\n\t\treturn err\n\t}\n\n\tfor _, p := range pools {", Expect: "C39.finpass/IPPoolController.reconcile"},
+			{Name: "finalizer pass abandoned when the conditions pass reported an error", File: "kube-controllers/pkg/controllers/ippool/pool_controller.go",
+				Old: "\tfor _, p := range pools {\n\t\tlogCtx := logrus.WithFields(logrus.Fields{", New: "\tfor _, p := range pools {\n\t\tif err != nil {\n\t\t\tbreak\n\t\t}\n\t\tlogCtx := logrus.WithFields(logrus.Fields{", Expect: "C39.finpass/IPPoolController.reconcile"},
+			{Name: "Intersects descends by the last bit of the node's own prefix", File: "felix/ip/trie.go",
+				Old: "\tchildIdx := cidr.Addr().NthBit(uint(n.cidr.Prefix() + 1))\n\tchild := n.children[childIdx]\n\treturn child.intersects(cidr)",
+				New: "\tchildIdx := cidr.Addr().NthBit(uint(common.Prefix()))\n\tchild := n.children[childIdx]\n\treturn child.intersects(cidr)", Expect: "C39.overlap-bit/CIDRNode.intersects"},
+			{Name: "Covers descends two bits below the node's prefix", File: "felix/ip/trie.go",
+				Old: "\tchildIdx := cidr.Addr().NthBit(uint(n.cidr.Prefix() + 1))\n\tchild := n.children[childIdx]\n\treturn child.covers(cidr)",
+				New: "\tchildIdx := cidr.Addr().NthBit(uint(n.cidr.Prefix() + 2))\n\tchild := n.children[childIdx]\n\treturn child.covers(cidr)", Expect: "C39.overlap-bit/CIDRNode.covers"},
 			{Name: "blocksInPool ignores matching blocks", File: "kube-controllers/pkg/controllers/ippool/pool_controller.go",
 				Old: "Debug(\"Found IPAMBlock in pool\")\n\t\t\treturn true\n", New: "Debug(\"Found IPAMBlock in pool\")\n\t\t\tcontinue\n", Expect: "C39.finalizer/blocksInPool"},
 		},
@@ -128,6 +140,7 @@ func runC39(c *Ctx) {
 	c.Rule("C39.finalizer", "E-GUARD/E-FLOW", "every persisted removal of the pool finalizer (found by what it does, anywhere below reconcile) happens only under !blocksInPool(own CIDR) or for a not-deleting Allocatable=False pool, the facts holding in the function or at every call site leading to it; blocksInPool reports contained blocks", 4)
 	c.Rule("C39.indep", "E-CTRL", "whether a pool is inserted into the overlap trie does not depend on the outcome of an API write: no branch on the error of a status/finalizer write skips trie.Update while the pass goes on to write further conditions", 2)
 	c.Rule("C39.synced", "E-DOM/E-FIELDS", "every informer field the reconcile closure reads has its HasSynced in a cache.WaitFor(Named)CacheSync call whose success guards every start of the worker in Run", 2)
+	c.Rule("C39.finpass", "E-CTRL", "in reconcile the finalizer pass over the pools returned by the conditions pass is reached on both outcomes (or neither) of every branch on the error of an earlier call that performs API writes: a pool the pass has just made Allocatable=True is never left without its finalizer because another pool's status write failed (errors are aggregated and returned at the end)", 1)
 
 	delTS := func(pool ssa.Value) func(ssa.Value) bool {
 		return func(v ssa.Value) bool {
@@ -151,6 +164,7 @@ func runC39(c *Ctx) {
 	c23Guarded(&lost, func() { c39Keep(c, p, delTS) })
 	c23Guarded(&lost, func() { c39Finalizer(c, p, delTS) })
 	c23Guarded(&lost, func() { c39Synced(c, p) })
+	c23Guarded(&lost, func() { c39OverlapBit(c, p) })
 	if len(lost) > 0 {
 		c.Lost("%s", strings.Join(lost, " | "))
 	}
@@ -843,6 +857,7 @@ func c39Finalizer(c *Ctx, p *Prog, delTS c39DelTS) {
 			}
 		}
 	}
+	c39FinPass(c, p, m, rec, hosts)
 	if nRem < 2 {
 		c.Lost("expected >= 2 (contexts of) persisted removals of the pool finalizer in the functions reachable from reconcile, found %d", nRem)
 	}
@@ -1187,4 +1202,174 @@ func c39RootIs(v ssa.Value, root ssa.Value) bool {
 		}
 	}
 	return false
+}
+
+// ---------------------------------------------------------------- finpass --
+
+// c39Writes: call performs (transitively, in-package) a clientset write.
+func c39Writes(call *ssa.Call) bool {
+	cc := call.Common()
+	if c39IsAPIWrite(calleeOf(cc)) {
+		return true
+	}
+	sf := calleeFn(cc)
+	return sf != nil && sf.Blocks != nil && containsCall(sf, 3, c39IsAPIWrite)
+}
+
+// c39FinPass: the conditions pass writes Allocatable=True pool by pool and
+// aggregates its errors; whether a pool is allocatable decides whether it must
+// carry the finalizer.  So in reconcile the finalizer pass — every call that
+// reaches a persisted append of the finalizer (or such a site itself) — must
+// not be control-dependent on the error of an earlier API-writing call: for
+// every branch on such an error, within one iteration (back edges removed), the
+// pass is reachable from both arms or from neither.  An early `return err`
+// leaves the pools that WERE made allocatable without a finalizer, so they can
+// be deleted while they still have blocks.
+func c39FinPass(c *Ctx, p *Prog, m *c39Fin, rec *ssa.Function, hosts []*ssa.Function) {
+	addHost := map[*ssa.Function]bool{}
+	for _, f := range hosts {
+		for _, st := range m.sites(f) {
+			if st.kind == "add" {
+				addHost[f] = true
+			}
+		}
+	}
+	if len(addHost) == 0 {
+		c.Lost("no persisted append of the pool finalizer below reconcile")
+	}
+	type target struct {
+		in   ssa.Instruction
+		name string
+	}
+	var targets []target
+	if addHost[rec] {
+		for _, st := range m.sites(rec) {
+			if st.kind == "add" {
+				targets = append(targets, target{st.instr, "finalizer-add"})
+			}
+		}
+	}
+	allInstrs(rec, false, func(_ *ssa.Function, in ssa.Instruction) {
+		ci, ok := in.(ssa.CallInstruction)
+		if !ok {
+			return
+		}
+		g := calleeFn(ci.Common())
+		if !m.inPkg(g) || g == rec {
+			return
+		}
+		for h := range p.closure(g) {
+			if addHost[h] {
+				targets = append(targets, target{in, fnName(g)})
+				return
+			}
+		}
+	})
+	if len(targets) == 0 {
+		c.Lost("IPPoolController.reconcile: no call that reaches the finalizer append")
+	}
+	type branch struct {
+		blk  *ssa.BasicBlock
+		call *ssa.Call
+		pos  token.Pos
+	}
+	var branches []branch
+	for _, b := range rec.Blocks {
+		ifi, ok := b.Instrs[len(b.Instrs)-1].(*ssa.If)
+		if !ok || len(b.Succs) != 2 || b.Succs[0] == b.Succs[1] {
+			continue
+		}
+		cond, _ := stripNot(ifi.Cond, true)
+		bo, ok := cond.(*ssa.BinOp)
+		if !ok || (bo.Op != token.EQL && bo.Op != token.NEQ) {
+			continue
+		}
+		for _, side := range []ssa.Value{bo.X, bo.Y} {
+			if !types.Identical(side.Type(), types.Universe.Lookup("error").Type()) {
+				continue
+			}
+			for _, o := range origins(side, nil) {
+				if call, ok := o.V.(*ssa.Call); ok && c39Writes(call) {
+					branches = append(branches, branch{b, call, bo.Pos()})
+				}
+			}
+		}
+	}
+	reach := func(from *ssa.BasicBlock) map[*ssa.BasicBlock]bool {
+		seen := map[*ssa.BasicBlock]bool{}
+		st := []*ssa.BasicBlock{from}
+		for len(st) > 0 {
+			b := st[len(st)-1]
+			st = st[:len(st)-1]
+			if seen[b] {
+				continue
+			}
+			seen[b] = true
+			for _, s := range b.Succs {
+				if s.Dominates(b) {
+					continue // back edge
+				}
+				st = append(st, s)
+			}
+		}
+		return seen
+	}
+	for _, t := range targets {
+		var bad []string
+		n := 0
+		for _, br := range branches {
+			if ssa.Instruction(br.call) == t.in || !instrDominates(br.call, t.in) {
+				continue // the pass's own error, or a write that is not upstream of it
+			}
+			n++
+			in0 := !br.blk.Succs[0].Dominates(br.blk) && reach(br.blk.Succs[0])[t.in.Block()]
+			in1 := !br.blk.Succs[1].Dominates(br.blk) && reach(br.blk.Succs[1])[t.in.Block()]
+			if in0 != in1 {
+				bad = append(bad, fmt.Sprintf("the branch at %s on the error of %s (called at %s)", p.Pos(br.pos), fnNameOfCall(br.call), p.Pos(br.call.Pos())))
+			}
+		}
+		c.Check(len(bad) == 0, "C39.finpass/"+fnName(rec)+"/"+t.name, p.Pos(t.in.Pos()),
+			fmt.Sprintf("the finalizer pass (%s) is reached whatever the outcome of %d branch(es) on an upstream API-write error", t.name, n),
+			fmt.Sprintf("in %s the finalizer pass (%s) is reached on only one arm of %s: the conditions pass writes Allocatable=True pool by pool and reports the failures together, so when any one pool's status write fails the pools that were made allocatable by the same pass are left without the finalizer and can be deleted while they still have address blocks (aggregate the error and carry on, e.g. errors.Join / utilerrors.NewAggregate at the end)", fnName(rec), t.name, strings.Join(bad, "; ")))
+	}
+}
+
+// ------------------------------------------------------------ overlap-bit --
+
+// c39OverlapBit arms C36.position (engine_C36pos.go) for the felix/ip.CIDRTrie
+// routines the controller's overlap test relies on: the CIDRTrie methods called
+// from this package and everything they call.  Get/Intersects/Covers must look
+// for an entry in the subtree where Update filed it.
+func c39OverlapBit(c *Ctx, p *Prog) {
+	names := map[string]bool{}
+	for _, f := range p.AllFuncs() {
+		if tf := topFn(f); tf.Pkg == nil || tf.Pkg != p.SSAPkg(c39Pkg) {
+			continue
+		}
+		for _, cs := range callsIn(f, false, func(g *types.Func) bool {
+			return g != nil && g.Pkg() != nil && strings.HasSuffix(g.Pkg().Path(), "/"+c36IPPkg) && recvTypeName(g) == "CIDRTrie"
+		}) {
+			names[cs.Callee.Name()] = true
+		}
+	}
+	for _, need := range []string{"Update", "Intersects", "Covers"} {
+		if !names[need] {
+			c.Lost("%s does not call ip.CIDRTrie.%s", c39Pkg, need)
+		}
+	}
+	ipp := c.Load(c36IPPkg)
+	m := c36Build(c, ipp)
+	var roots []*ssa.Function
+	for _, n := range sortedKeys(names) {
+		f := ipp.Func(c36IPPkg, "CIDRTrie."+n)
+		if f == nil {
+			c.Lost("ip.CIDRTrie.%s", n)
+		}
+		roots = append(roots, f)
+	}
+	only := ipp.closure(roots...)
+	c.Alias("C36.position", "C39.overlap-bit", func() {
+		c.Rule("C36.position", "E-SIBLING", "the CIDRTrie routines behind the overlap test (Get, Intersects, Covers, Update and what they call) select a node's child by the address bit at position len(node prefix)+1 — "+c36PositionText, 4)
+		c36Position(c, m, only)
+	})
 }
